@@ -71,6 +71,8 @@ def build_ops(rng, spec):
 
 
 def run(res, replay=None):
+    # pinned reading of the assembly of the SFS statistics (moment layout, cov, corr, get_cov, bin indices): re-check the CURRENT source against it and proofs/GenSfsEquiv.v
+    import translate_step; (res.proof is not None) and translate_step.run(res.proof, pid=res.pid, tie='sfs')
     # structural tie of the propagation loops (_accumulate, cdf) of phasegen/distributions.py: translate the CURRENT source and re-check proofs/GenLoopsEquiv.v
     import translate_step; (res.proof is not None) and translate_step.run(res.proof, pid=res.pid, tie='loops')
     # structural tie of phasegen/rewards.py: translate the CURRENT source and re-check proofs/GenRewardsEquiv.v against it
